@@ -1,6 +1,6 @@
 /-
   JSON glue for the C06 model (`SpVerif.Model.Layers`).
-  Values: null | number | string | {"d": [[key, value]…]} (dicts as pair lists: insertion order is kept).
+  Values: null | number | string | {"a": canonical JSON text of a bool/float/list leaf} | {"d": [[key, value]…]} (dicts as pair lists: insertion order is kept).
   Classes: [{"k":"leaf","name":n,"dflt":V|null} | {"k":"nested","name":n,"fac":dict|null,"cls":[…]}].
 -/
 import SpVerif.Drive.Util
@@ -19,6 +19,7 @@ partial def lyParseJ (j : Json) : R J := do
     | .ok i => return .int i
     | .error e => throw s!"non-integer number: {e}"
   | .obj _ =>
+    if let .ok (.str a) := j.getObjVal? "a" then return .atom (chars a)
     let items ← (← arr j "d").toList.mapM (fun kv => do
       let a ← (kv.getArr? : R (Array Json))
       if a.size != 2 then throw "bad dict item"
@@ -50,6 +51,7 @@ partial def lyJOut : J → Json
   | .null => Json.null
   | .int i => Json.num (JsonNumber.fromInt i)
   | .str s => jstr s
+  | .atom s => Json.mkObj [("a", jstr s)]
   | .dict kvs => Json.mkObj [("d", Json.arr (kvs.map (fun kv => Json.arr #[jstr kv.1, lyJOut kv.2])).toArray)]
 
 partial def lyParseWT (fields : List Json) : R WT := do
